@@ -31,6 +31,7 @@ import (
 	"k8s.io/apimachinery/pkg/runtime"
 	"k8s.io/apimachinery/pkg/runtime/schema"
 	"k8s.io/apimachinery/pkg/types"
+	utiljson "k8s.io/apimachinery/pkg/util/json"
 	"sigs.k8s.io/controller-runtime/pkg/client"
 	"sigs.k8s.io/controller-runtime/pkg/client/apiutil"
 	"sigs.k8s.io/yaml"
@@ -668,7 +669,11 @@ func (s *Store) Patch(_ context.Context, obj client.Object, patch client.Patch, 
 	switch patch.Type() {
 	case types.ApplyPatchType:
 		var applied map[string]any
-		if err := yaml.Unmarshal(data, &applied); err != nil {
+		jdata, err := yaml.YAMLToJSON(data)
+		if err != nil {
+			return s.end(r, apierrors.NewBadRequest(err.Error()))
+		}
+		if err := utiljson.Unmarshal(jdata, &applied); err != nil {
 			return s.end(r, apierrors.NewBadRequest(err.Error()))
 		}
 		au := &unstructured.Unstructured{Object: applied}
@@ -711,7 +716,7 @@ func (s *Store) Patch(_ context.Context, obj client.Object, patch client.Patch, 
 		if err != nil {
 			return s.end(r, apierrors.NewBadRequest(err.Error()))
 		}
-		if err := json.Unmarshal(nj, &newObj); err != nil {
+		if err := utiljson.Unmarshal(nj, &newObj); err != nil {
 			return err
 		}
 		if hasStatusSubresource(k) {
@@ -734,7 +739,7 @@ func (s *Store) Patch(_ context.Context, obj client.Object, patch client.Patch, 
 		if err != nil {
 			return s.end(r, apierrors.NewBadRequest(err.Error()))
 		}
-		if err := json.Unmarshal(nj, &newObj); err != nil {
+		if err := utiljson.Unmarshal(nj, &newObj); err != nil {
 			return err
 		}
 	default:
